@@ -8,7 +8,7 @@
    Main results
      pinv_image_wf    PInv s -> EmptyStreams s -> Owned s -> RootEmpty s ->
                       Tidy (dirs s) -> wf_check (concat_img (img s)) = 0
-                      (all 44 rules of the checker)
+                      (all 50 rules of the checker)
      step_xinv        the three side conditions are kept by every covered step
      wf_history       the checker accepts the image after every covered history
                       (same hypotheses as PersistProofs.persist_history)
@@ -111,11 +111,18 @@ Definition stage_tree (sl per : N) (sec : N -> list byte) (fat : list N) (es : l
   if negb (w_type root =? OBJ_TYPE_ROOT) then 27 else
   if negb (match scalars (w_name root) with Some n => list_eqb N.eqb n ROOT_DIR_NAME | None => false end) then 28 else
   if negb ((w_left root =? NO_STREAM) && (w_right root =? NO_STREAM)) then 29 else
+  if negb ((w_color root =? COLOR_RED) || (w_color root =? COLOR_BLACK)) then 46 else
+  if negb (match name_ok root with Some _ => true | None => false end) then 47 else
   match tree_walk (S (length es)) es [w_child root] [0] with None => 30 | Some reach =>
   if negb (forallb (fun '(i, e) => if memN i reach then true else blank_entry e) (index_from es 0)) then 31 else
+  if negb (forallb (fun '(i, e) => if memN i reach then true else w_namelen e mod 2 =? 0) (index_from es 0)) then 48 else
   if negb (forallb (fun '(i, e) => if (w_type e =? OBJ_TYPE_STREAM) && memN i reach
                                    then w_clsid_zero e && (w_ctime e =? 0) && (w_mtime e =? 0) && (w_child e =? NO_STREAM)
                                    else true) (index_from es 0)) then 32 else
+  if negb (forallb (fun '(i, e) => if (w_type e =? OBJ_TYPE_STORAGE) && memN i reach
+                                   then w_start e =? 0 else true) (index_from es 0)) then 49 else
+  if negb (forallb (fun '(i, e) => if (w_type e =? OBJ_TYPE_STORAGE) && memN i reach
+                                   then w_len e =? 0 else true) (index_from es 0)) then 50 else
   stage_mini sl per sec fat es root reach own2 first_minifat num_minifat
   end.
 
@@ -175,6 +182,7 @@ Definition stage_body (bytes : list byte) (vnum shift : N) : N :=
   if negb (len mod sl =? 0) then 8 else
   if len <? 2 * sl then 9 else
   let ns := len / sl - 1 in
+  if MAX_REGULAR_SECTOR <? ns then 45 else
   let secs := split_chunks (S (N.to_nat (len / sl))) sl bytes in
   let sec := fun i => match nthN secs (i + 1) with Some s => s | None => [] end in
   let per := sl / 4 in
@@ -495,6 +503,8 @@ Proof.
   replace (slen s * (nsect s + 1) / slen s) with (nsect s + 1)
     by (symmetry; rewrite N.mul_comm; apply N.div_mul; exact Hslpos).
   replace (nsect s + 1 - 1) with (nsect s) by lia.
+  replace (MAX_REGULAR_SECTOR <? nsect s) with false
+    by (symmetry; apply N.ltb_ge; exact (ch_nsect s C)).
   rewrite (image_sectors s C).
   change (fun i => match nthN (img s) (i + 1) with Some s0 => s0 | None => [] end) with (sector_bytes s).
   destruct (image_split s C) as (R & HR). rewrite HR.
@@ -676,7 +686,9 @@ Record wrep (v : version) (e : dirent) (we : wentry) : Prop := mkWrep {
   wr_mtime : w_mtime we = d_mtime e;
   wr_start : w_start we = d_start e;
   wr_len : w_len we = d_len e;
-  wr_nameok : d_type e <> TRoot -> name_ok we = Some (d_name e)
+  wr_nameok : d_type e <> TRoot -> name_ok we = Some (d_name e);
+  wr_nameok_root : d_type e = TRoot -> name_ok we = Some (d_name e);
+  wr_namelen_even : w_namelen we mod 2 = 0
 }.
 
 Theorem went_wrep : forall v e, CodecProofs.dirent_wf v e -> wrep v e (went v e).
@@ -775,11 +787,13 @@ Proof.
   assert (Hname : units_of bs (length u) = u) by (apply units_of_le_bytes; exact Hunits).
   unfold parse_entry. cbv zeta. unfold byte. rewrite F64, Hidx, Hname, F66, F67, F68, F72, F76, F80, F96, F100, F108, F116, F120.
   rewrite (CodecProofs.land_stream_len_mask v ln Wln).
-  constructor; cbn [w_name w_namelen w_type w_color w_left w_right w_child w_clsid_zero w_state w_ctime
-                   w_mtime w_start w_len w_raw d_name d_type d_color d_left d_right d_child d_clsid
-                   d_state d_ctime d_mtime d_start d_len]; try reflexivity.
-  - intros ->. vm_compute. reflexivity.
-  - intros Hty. unfold name_ok.
+  match goal with |- wrep _ _ ?W => set (we := W) end.
+  assert (Hforb : existsb (fun f => memN f nm) FORBIDDEN_CHARS = false).
+  { destruct (objtype_eqb ty TRoot) eqn:Et.
+    - rewrite Wnm. vm_compute. reflexivity.
+    - destruct Wnm as [u' Hu']. destruct (validate_name_ok _ _ Hu') as [_ Hf]. exact Hf. }
+  assert (Hnok : name_ok we = Some nm).
+  { unfold name_ok, we.
     cbn [w_name w_namelen w_raw]. unfold byte.
     replace ((2 <=? (lenN u + 1) * 2) && ((lenN u + 1) * 2 <=? 64) && ((lenN u + 1) * 2 mod 2 =? 0))
       with true.
@@ -799,10 +813,13 @@ Proof.
     replace (64 - (lenN u + 1) * 2) with (lenN (repeatN (A:=N) 0 (2 * (31 - lenN u))))
       by (rewrite CodecProofs.lenN_repeatN; lia).
     rewrite CodecProofs.takeN_app_exact, all_zero_repeatN. cbn [negb].
-    rewrite scalars_from_utf16. fold u. rewrite Hfrom.
-    destruct (objtype_eqb ty TRoot) eqn:Et.
-    { destruct ty; try discriminate Et. contradiction. }
-    destruct Wnm as [u' Hu']. destruct (validate_name_ok _ _ Hu') as [_ Hf]. rewrite Hf. reflexivity.
+    rewrite scalars_from_utf16. fold u. rewrite Hfrom, Hforb. reflexivity. }
+  constructor; try (intros _; exact Hnok); subst we;
+    cbn [w_name w_namelen w_type w_color w_left w_right w_child w_clsid_zero w_state w_ctime
+                   w_mtime w_start w_len w_raw d_name d_type d_color d_left d_right d_child d_clsid
+                   d_state d_ctime d_mtime d_start d_len]; try reflexivity.
+  - intros ->. vm_compute. reflexivity.
+  - rewrite N.mod_mul by lia. reflexivity.
 Qed.
 
 (* ================================================================== *)
@@ -1302,6 +1319,9 @@ Proof.
   rewrite (wr_name _ _ _ Wr), Hrn, scalars_from_utf16,
           (CodecProofs.from_utf16_utf16 _ CodecProofs.scalar_root_name), CodecProofs.list_eqb_refl.
   cbn [negb]. rewrite (wr_left _ _ _ Wr), (wr_right _ _ _ Wr), RL, RR, N.eqb_refl. cbn [andb negb].
+  assert (H46 : (w_color (went (ver s) root_e) =? COLOR_RED) || (w_color (went (ver s) root_e) =? COLOR_BLACK) = true).
+  { rewrite (wr_color _ _ _ Wr). destruct (d_color root_e); reflexivity. }
+  rewrite H46, (wr_nameok_root _ _ _ Wr Hrt). cbn [negb].
   rewrite (wr_child _ _ _ Wr), Hwalk.
   assert (H31 : forallb (fun '(i, e) => if memN i reach then true else blank_entry e)
                         (index_from (es_of s dids) 0) = true).
@@ -1312,6 +1332,14 @@ Proof.
     destruct (es_of_nth s dids i we Hwe) as [(e & He & ->)|(_ & ->)]; [|apply blank_went].
     rewrite (Hblank i e He HnU). apply blank_went. }
   rewrite H31. cbn [negb].
+  assert (H48 : forallb (fun '(i, e) => if memN i reach then true else w_namelen e mod 2 =? 0)
+                        (index_from (es_of s dids) 0) = true).
+  { apply forallb_index_from. intros i we Hwe. rewrite N.add_0_l.
+    destruct (memN i reach); [reflexivity|]. apply N.eqb_eq.
+    destruct (es_of_nth s dids i we Hwe) as [(e & He & ->)|(_ & ->)].
+    - exact (wr_namelen_even _ _ _ (went_wrep _ _ (Hwf _ _ He))).
+    - destruct (ver s); vm_compute; reflexivity. }
+  rewrite H48. cbn [negb].
   assert (H32 : forallb (fun '(i, e) => if (w_type e =? OBJ_TYPE_STREAM) && memN i reach
                                    then w_clsid_zero e && (w_ctime e =? 0) && (w_mtime e =? 0) && (w_child e =? NO_STREAM)
                                    else true) (index_from (es_of s dids) 0) = true).
@@ -1327,7 +1355,30 @@ Proof.
     destruct (CodecProofs.wf_stream _ _ (Hwf _ _ He) Hst) as (Hc & Hg & Hct & Hmt).
     rewrite (wr_clsid _ _ _ W Hg), (wr_ctime _ _ _ W), (wr_mtime _ _ _ W), (wr_child _ _ _ W), Hc, Hct, Hmt.
     reflexivity. }
-  rewrite H32. reflexivity.
+  rewrite H32. cbn [negb].
+  assert (Hsto : forall i we, nthN (es_of s dids) i = Some we ->
+            (w_type we =? OBJ_TYPE_STORAGE) && memN i reach = true -> w_start we = 0 /\ w_len we = 0).
+  { intros i we Hwe Ec.
+    apply andb_true_iff in Ec. destruct Ec as [Ety Em]. apply WalkProofs.memN_In in Em.
+    destruct (MutRefine.NRU_typed _ _ _ _ _ _ _ HN i) as (e & He & _);
+      [eapply Permutation_in; [exact Hperm|exact Em]|].
+    rewrite (es_of_nth_old s dids i e He) in Hwe. injection Hwe as <-.
+    pose proof (went_wrep _ _ (Hwf _ _ He)) as W.
+    rewrite (wr_type _ _ _ W) in Ety.
+    assert (Hst : d_type e = TStorage) by (destruct (d_type e); try discriminate Ety; reflexivity).
+    destruct (CodecProofs.wf_storage _ _ (Hwf _ _ He) Hst) as (Hs0 & Hl0).
+    rewrite (wr_start _ _ _ W), (wr_len _ _ _ W). split; assumption. }
+  assert (H49 : forallb (fun '(i, e) => if (w_type e =? OBJ_TYPE_STORAGE) && memN i reach
+                                   then w_start e =? 0 else true) (index_from (es_of s dids) 0) = true).
+  { apply forallb_index_from. intros i we Hwe. rewrite N.add_0_l.
+    destruct ((w_type we =? OBJ_TYPE_STORAGE) && memN i reach) eqn:Ec; [|reflexivity].
+    apply N.eqb_eq. exact (proj1 (Hsto i we Hwe Ec)). }
+  assert (H50 : forallb (fun '(i, e) => if (w_type e =? OBJ_TYPE_STORAGE) && memN i reach
+                                   then w_len e =? 0 else true) (index_from (es_of s dids) 0) = true).
+  { apply forallb_index_from. intros i we Hwe. rewrite N.add_0_l.
+    destruct ((w_type we =? OBJ_TYPE_STORAGE) && memN i reach) eqn:Ec; [|reflexivity].
+    apply N.eqb_eq. exact (proj2 (Hsto i we Hwe Ec)). }
+  rewrite H49, H50. reflexivity.
 Qed.
 
 Theorem stage_dir_eq : forall s, PInv s -> Tidy (dirs s) ->
